@@ -91,9 +91,118 @@ var c19ShapeSrc = map[string]string{
 	@T@
 	return @CALL(x)@
 }`,
+	// ---- shapes added for the independent executed-statement oracle (c19_ref.go): statement forms whose execution goes
+	// through the signal machinery of the executor (defer installation, panics and recover, branches out of nested
+	// scopes) or that open and close scopes with local bindings; one simple statement per line
+	"defers": `func NAME(x int) (r int) {
+	@T@
+	defer T(901)
+	r = x
+	for i := 0; i < 2; i++ {
+		defer T(902 + i)
+		@T@
+	}
+	@BP@
+	if x >= 0 {
+		defer func() {
+			r += @CALL(x)@
+			return
+		}()
+		r++
+	}
+	defer T(905)
+	return r
+}`,
+	"recover": `func NAME(x int) (r int) {
+	defer func() {
+		e := recover()
+		@T@
+		if e != nil {
+			r = @CALL(x)@
+		}
+		return
+	}()
+	@T@
+	@BP@
+	var a []int
+	r = a[x+5]
+	@T@
+	return r
+}`,
+	"switch": `func NAME(x int) int {
+	r := 0
+	for i := 0; i < 3; i++ {
+		@T@
+		switch {
+		case i == 0:
+			r++
+			continue
+		case i == 1:
+			@BP@
+			r += @CALL(i)@
+		default:
+			@T@
+			break
+		}
+		@T@
+	}
+	return r
+}`,
+	"labels": `func NAME(x int) int {
+	r := 0
+outer:
+	for _, v := range []int{1, 2} {
+		@T@
+		for j := 0; ; j++ {
+			@T@
+			if j == v {
+				continue outer
+			}
+			if j > 0 {
+				break outer
+			}
+			r += v
+		}
+	}
+	@BP@
+	r += @CALL(x)@
+	if r != 0 {
+		@T@
+	}
+	return r
+}`,
+	"scopes": `func NAME(x int) int {
+	var a int
+	var b, c = 1, x
+	@T@
+	{
+		y := a + b
+		@BP@
+		c += @CALL(y)@
+		y++
+		a = y
+	}
+	ch := make(chan int, 1)
+	ch <- c
+	select {
+	case v := <-ch:
+		@T@
+		a += v
+	default:
+		@T@
+	}
+	if z := a; z > 0 {
+		@T@
+		a, b = b, z
+	}
+	return a + b
+}`,
 }
 
 var c19ShapeNames = []string{"plain", "loop", "defer", "closure", "earlyret", "earlyret2"}
+
+// shapes used by the trace-completeness family (all of c19ShapeNames plus the statement-form shapes)
+var c19ShapeNamesX = []string{"plain", "loop", "defer", "closure", "earlyret", "earlyret2", "defers", "recover", "switch", "labels", "scopes"}
 
 func c19Make(shapes []string, bp []bool) c19Prog {
 	p := c19Prog{Shapes: shapes, BP: bp}
@@ -190,6 +299,11 @@ func c19Corpus(thorough bool) []c19Prog {
 		}
 		out = append(out, c19Make([]string{"plain", "noreturn"}, []bool{false, false}))
 		out = append(out, c19Make([]string{"noreturn", "plain"}, []bool{false, true}))
+		// the statement-form shapes as caller and as callee of a plain level
+		for _, s := range c19ShapeNamesX[len(c19ShapeNames):] {
+			out = append(out, c19Make([]string{s, "plain"}, []bool{false, true}))
+			out = append(out, c19Make([]string{"plain", s}, []bool{false, true}))
+		}
 		return out
 	}
 	for _, s1 := range c19ShapeNames {
@@ -209,5 +323,55 @@ func c19Corpus(thorough bool) []c19Prog {
 	out = append(out, c19Make([]string{"plain", "noreturn"}, []bool{false, false}))
 	out = append(out, c19Make([]string{"noreturn", "plain"}, []bool{false, true}))
 	out = append(out, c19Make([]string{"loop", "noreturn", "plain"}, []bool{false, true, false}))
+	for _, s1 := range c19ShapeNamesX {
+		for _, s2 := range c19ShapeNamesX[len(c19ShapeNames):] {
+			out = append(out, c19Make([]string{s1, s2}, []bool{false, true}))
+		}
+	}
+	for _, s1 := range c19ShapeNamesX[len(c19ShapeNames):] {
+		for _, s2 := range c19ShapeNames {
+			out = append(out, c19Make([]string{s1, s2}, []bool{true, true}))
+		}
+	}
+	return out
+}
+
+// c19TraceCorpus enumerates the programs whose single-step trace is compared with compiled Go (family 0): a superset
+// of the programs explored with command sequences (one debug run per program, so the set can be much larger).
+func c19TraceCorpus(thorough bool) []c19Prog {
+	var out []c19Prog
+	seen := map[string]bool{}
+	add := func(p c19Prog) {
+		if !seen[p.ID] {
+			seen[p.ID] = true
+			out = append(out, p)
+		}
+	}
+	for _, p := range c19Corpus(thorough) {
+		add(p)
+	}
+	bpsets3 := [][]bool{{false, false, true}, {false, true, false}, {true, false, true}, {false, true, true}, {true, false, false}, {true, true, false}, {true, true, true}, {false, false, false}}
+	n := 0
+	X := c19ShapeNamesX
+	for _, s1 := range X {
+		for _, s2 := range X {
+			add(c19Make([]string{s1, s2, "plain"}, bpsets3[n%len(bpsets3)]))
+			n++
+		}
+	}
+	for _, s3 := range X {
+		add(c19Make([]string{"plain", "plain", s3}, []bool{false, false, true}))
+		add(c19Make([]string{"plain", "earlyret", s3}, []bool{false, true, true}))
+	}
+	if thorough {
+		for _, s1 := range X {
+			for _, s2 := range X {
+				for _, s3 := range X {
+					add(c19Make([]string{s1, s2, s3}, bpsets3[n%len(bpsets3)]))
+					n++
+				}
+			}
+		}
+	}
 	return out
 }
